@@ -9,7 +9,7 @@ LEVEL = 'fault_enumeration'
 EPS = 0.001
 RULE = ('operation in {connect without auth / with a signature / waiting for the public key to be accepted, shell, exec_out, streaming_shell, root, reboot, list, stat, pull, pull with callback, '
         'push of 1 WRTE, push of several WRTEs} x EVERY device->host packet index the operation awaits x stall kind {silence, end-of-stream (empty reads forever), trickle (first 1/23/24/size-1 '
-        'bytes of the awaited packet one per 0.9 x transport timeout, then silence), endless traffic for another stream, endless unexpected packets on this stream} (plus: endless output on this stream for the operations that take a whole-command limit) x timeout grid transport '
+        'bytes of the awaited packet one per 0.9 x transport timeout, then silence), endless traffic for another stream, endless unexpected packets on this stream, a WRTE on this stream in place of the awaited packet followed by another one for every OKAY the host sends} (plus: endless output on this stream for the operations that take a whole-command limit) x timeout grid transport '
         '{None, 0, 0.01, 0.5} x read {-1, 0, 0.05, 1} x total {None, 0, 0.02, 2} (auth {0.05, 1} for connect), virtual clock with 1 ms per transport call; oracle: the call raises AdbTimeoutError or '
         'the transport timeout class, never returns a result, never blocks forever, the transport-call watchdog is not exhausted, virtual time from the stall to the raise <= 4 x (read + transport) '
         '+ total + eps x calls, and every timeout handed to the transport <= effective read timeout <= total; non-trivial = every case; distinct = distinct (op, packet, stall, timeouts, twin)')
@@ -49,12 +49,12 @@ def frames_of(op, twin):
         try:
             if op in CONNECTS:
                 r = s.op(('connect', dict(CONNECTS[op])))
-                _FR[key] = (0, s.env.frames_seen)
+                _FR[key] = (0, s.env.frames_seen, [p.cmd for w, p in s.env.events if w == 'D'])
             else:
                 s.op(('connect',))
                 a = s.env.frames_seen
                 r = s.op(OPS[op]({}))
-                _FR[key] = (a, s.env.frames_seen - a)
+                _FR[key] = (a, s.env.frames_seen - a, [p.cmd for w, p in s.env.events if w == 'D'][a:])
             assert r[0] == 'ok', (op, r)
         finally:
             s.finish()
@@ -70,7 +70,7 @@ def eff(transport, read, total):
 def run_stall(params, ch):
     op, twin, k = params['op'], params['twin'], params['k']
     T, R, total, auth = params['T'], params['R'], params.get('total'), params.get('auth')
-    before, _n = frames_of(op, twin)
+    before, _n = frames_of(op, twin)[:2]
     cfg = dict(CFG)
     cfg['stall'] = {'frame': before + k, 'kind': params['kind'], 'j': params.get('j', 1)}
     s = Session(ch, cfg, twin=twin, eps=EPS, max_calls=60000)
@@ -165,7 +165,7 @@ def run_endless(params, ch):
 
 
 def stalls(tier='quick'):
-    out = [{'kind': 'silence'}, {'kind': 'eof'}, {'kind': 'other'}, {'kind': 'unexpected'}]
+    out = [{'kind': 'silence'}, {'kind': 'eof'}, {'kind': 'other'}, {'kind': 'unexpected'}, {'kind': 'wrte'}]
     out += [{'kind': 'trickle', 'j': j} for j in ((1, 23, 24, -1) if tier == 'quick' else (1, 2, 12, 23, 24, 25, -2, -1))]
     return out
 
@@ -185,6 +185,9 @@ def parts(tier):
             n = frames_of(op, twin)[1]
             for k in range(n):
                 for stl in stalls(tier):
+                    awaited = frames_of(op, twin)[2][k]
+                    if stl['kind'] == 'wrte' and not (awaited == b'OKAY' or (awaited == b'CLSE' and op in ('list', 'stat', 'pull', 'pull-cb', 'push1', 'push3'))):
+                        continue      # a WRTE where data may still come (shell output) is progress, not a stall
                     for T in Ts:
                         for R in Rs:
                             for total in (totals if op in HAS_TOTAL else (None,)):
@@ -198,6 +201,8 @@ def parts(tier):
             n = frames_of(op, twin)[1]
             for k in range(n):
                 for stl in stalls(tier):
+                    if stl['kind'] == 'wrte':
+                        continue
                     for T in Ts:
                         for R in Rs:
                             for auth in (0.05, 1):
